@@ -213,6 +213,21 @@ static std::string showMat(RealMatrix const& M){
 	return os.str();
 }
 
+
+// weightedInputDerivative needs a dense batch type; for sparse inputs the op is not offered
+template<class I> struct InputDeriv{
+	static bool supported(){ return false; }
+	template<class K, class B> static RealMatrix run(K const&, B const&, B const&, RealMatrix const&, State const&){ return RealMatrix(); }
+	template<class P> static void perturb(P&, std::size_t, double){}
+};
+template<> struct InputDeriv<RealVector>{
+	static bool supported(){ return true; }
+	template<class K, class B> static RealMatrix run(K const& k, B const& b1, B const& b2, RealMatrix const& C, State const& st){
+		RealMatrix g; k.weightedInputDerivative(b1, b2, C, st, g); return g;
+	}
+	static void perturb(RealVector& x, std::size_t t, double h){ x(t) += h; }
+};
+
 // one session = current kernel + current points of input type I
 template<class I>
 struct Session{
@@ -229,7 +244,22 @@ struct Session{
 		for(std::size_t s: sizes){ d.push_back(batch(pos, pos + s)); pos += s; }
 		return d;
 	}
-	bool close(double a, double b) const{ return ulps(a,b) <= tolUlp; }
+	// bitwise equality for kernels without NormalizedKernel; with it, the evaluation paths round
+	// differently (two divisions vs. one division by a product) and sums may cancel: allow 4 ulp or
+	// 1e-13 relative to the largest magnitude in the compared matrix.
+	bool close(double a, double b, double scale = 0) const{
+		if(ulps(a,b) <= tolUlp) return true;
+		if(tolUlp == 0) return false;
+		if(std::isnan(a) && std::isnan(b)) return true;
+		double m = std::max(std::max(std::fabs(a), std::fabs(b)), std::max(scale, 1.0));
+		return std::fabs(a-b) <= 1e-13*m;
+	}
+	static double maxAbs(RealMatrix const& M){
+		double m = 0;
+		for(std::size_t i = 0; i != M.size1(); ++i) for(std::size_t j = 0; j != M.size2(); ++j)
+			if(std::isfinite(M(i,j))) m = std::max(m, std::fabs(M(i,j)));
+		return m;
+	}
 
 	std::string single(std::size_t i, std::size_t j) const{
 		double v = k->eval(pts[i], pts[j]);
@@ -242,7 +272,7 @@ struct Session{
 	std::string blockOracle(RealMatrix const& M, std::size_t a, std::size_t c, const char* tag) const{
 		for(std::size_t i = 0; i != M.size1(); ++i) for(std::size_t j = 0; j != M.size2(); ++j){
 			double s = k->eval(pts[a+i], pts[c+j]);
-			if(!close(M(i,j), s)){
+			if(!close(M(i,j), s, maxAbs(M))){
 				std::ostringstream os; os << " !oracle " << tag << "-vs-single (" << i << "," << j << ") block=" << val(M(i,j)) << " single=" << val(s);
 				return os.str();
 			}
@@ -261,7 +291,7 @@ struct Session{
 		// transposed block must be the transpose
 		RealMatrix T = (*k)(b2, b1);
 		for(std::size_t i = 0; i != M.size1(); ++i) for(std::size_t j = 0; j != M.size2(); ++j)
-			if(!close(M(i,j), T(j,i))){ out += " !oracle asymmetric-block"; return out; }
+			if(!close(M(i,j), T(j,i), maxAbs(M))){ out += " !oracle asymmetric-block"; return out; }
 		return out;
 	}
 	std::string fdist(std::size_t i, std::size_t j) const{
@@ -282,11 +312,11 @@ struct Session{
 		for(std::size_t i = 0; i != n1; ++i) for(std::size_t j = 0; j != n2; ++j){
 			double s = k->eval(pts[i], pts[off2+j]);
 			if(square && i == j) s += reg;
-			if(!close(M(i,j), s)){ os << " !oracle gram-vs-single (" << i << "," << j << ") gram=" << val(M(i,j)) << " single=" << val(s); return os.str(); }
+			if(!close(M(i,j), s, maxAbs(M))){ os << " !oracle gram-vs-single (" << i << "," << j << ") gram=" << val(M(i,j)) << " single=" << val(s); return os.str(); }
 		}
 		if(square){
 			for(std::size_t i = 0; i != n1; ++i) for(std::size_t j = 0; j != i; ++j)
-				if(!close(M(i,j), M(j,i))){ os << " !oracle asymmetric-gram (" << i << "," << j << ")"; return os.str(); }
+				if(!close(M(i,j), M(j,i), maxAbs(M))){ os << " !oracle asymmetric-gram (" << i << "," << j << ")"; return os.str(); }
 			if(k->isNormalized() && reg == 0)
 				for(std::size_t i = 0; i != n1; ++i) if(!(ulps(M(i,i), 1.0) <= 4)){ os << " !oracle normalized-diag (" << i << ") " << val(M(i,i)); return os.str(); }
 			// smallest eigenvalue (search aid): symmetrised copy, LAPACK syev through remora
@@ -321,6 +351,80 @@ struct Session{
 		RealMatrix M = calculateMixedKernelMatrix(*k, d1, d2);
 		return showMat(M) + gramOracle(M, n1, n1, n2, 0, false);
 	}
+
+	// ---- derivatives ----
+	bool coeffs(std::vector<std::string> const& t, std::size_t from, std::size_t r, std::size_t c, RealMatrix& C) const{
+		if(t.size() != from + r*c) return false;
+		C.resize(r,c);
+		for(std::size_t i = 0; i != r*c; ++i){ double v; if(!parseVal(t[from+i], v)) return false; C(i/c, i%c) = v; }
+		return true;
+	}
+	double weightedSum(RealMatrix const& C, std::size_t a, std::size_t c, std::vector<I> const& p1) const{
+		double s = 0;
+		for(std::size_t i = 0; i != C.size1(); ++i) for(std::size_t j = 0; j != C.size2(); ++j)
+			s += C(i,j) * k->eval(p1[i], pts[c+j]);
+		return s;
+	}
+	std::string deriv(std::vector<std::string> const& t) const{
+		std::vector<std::size_t> a;
+		std::vector<std::string> head(t.begin(), t.begin() + std::min<std::size_t>(t.size(), 5));
+		if(t.size() < 5 || !vh::allNat(head, 1, a) || a.size() != 4) return "bad-op";
+		if(!(a[0] < a[1] && a[1] <= pts.size() && a[2] < a[3] && a[3] <= pts.size())) return "bad-op";
+		RealMatrix C;
+		if(!coeffs(t, 5, a[1]-a[0], a[3]-a[2], C)) return "bad-op";
+		typename Batch<I>::type b1 = batch(a[0],a[1]), b2 = batch(a[2],a[3]);
+		boost::shared_ptr<State> st = k->createState();
+		RealMatrix M; k->eval(b1, b2, M, *st);
+		std::string const& op = t[0];
+		if(op == "pderiv"){
+			if(!k->hasFirstParameterDerivative()) return "unsupported";
+			RealVector g; k->weightedParameterDerivative(b1, b2, C, *st, g);
+			std::string out = "g=";
+			for(std::size_t i = 0; i != g.size(); ++i){ if(i) out += ","; out += val(g(i)); }
+			return out;
+		}
+		if(op == "ideriv"){
+			if(!k->hasFirstInputDerivative() || !InputDeriv<I>::supported()) return "unsupported";
+			return showMat(InputDeriv<I>::run(*k, b1, b2, C, *st));
+		}
+		// dcheck: both derivative calls against central finite differences of the weighted sum of
+		// single evaluations (numerical oracle on the real code; tolerance 2e-5 relative)
+		std::string out = "ok";
+		std::vector<I> p1(pts.begin()+a[0], pts.begin()+a[1]);
+		double h = 1e-5, scale = 1;
+		for(std::size_t i = 0; i != C.size1(); ++i) for(std::size_t j = 0; j != C.size2(); ++j)
+			scale += std::fabs(C(i,j) * k->eval(p1[i], pts[a[2]+j]));
+		if(k->hasFirstParameterDerivative()){
+			RealVector g; k->weightedParameterDerivative(b1, b2, C, *st, g);
+			RealVector th = k->parameterVector();
+			if(g.size() != th.size()) out += " !oracle param-gradient-size";
+			else for(std::size_t p = 0; p != th.size(); ++p){
+				RealVector tp = th, tm = th; tp(p) += h; tm(p) -= h;
+				k->setParameterVector(tp); double sp = weightedSum(C, a[0], a[2], p1);
+				k->setParameterVector(tm); double sm = weightedSum(C, a[0], a[2], p1);
+				k->setParameterVector(th);
+				double fd = (sp - sm) / (2*h);
+				if(!(std::fabs(fd - g(p)) <= 2e-5*(scale + std::fabs(g(p))))){
+					std::ostringstream os; os << " !oracle param-derivative p=" << p << " analytic=" << g(p) << " finite-diff=" << fd; out += os.str(); break;
+				}
+			}
+		}
+		if(k->hasFirstInputDerivative() && InputDeriv<I>::supported()){
+			RealMatrix G = InputDeriv<I>::run(*k, b1, b2, C, *st);
+			if(G.size1() != p1.size()) out += " !oracle input-gradient-shape";
+			else for(std::size_t i = 0; i != G.size1() && out == "ok"; ++i) for(std::size_t tt = 0; tt != G.size2(); ++tt){
+				std::vector<I> pp = p1, pm = p1;
+				InputDeriv<I>::perturb(pp[i], tt, h); InputDeriv<I>::perturb(pm[i], tt, -h);
+				RealMatrix Ci(1, C.size2()); for(std::size_t j = 0; j != C.size2(); ++j) Ci(0,j) = C(i,j);
+				std::vector<I> qp(1, pp[i]), qm(1, pm[i]);
+				double fd = (weightedSum(Ci, 0, a[2], qp) - weightedSum(Ci, 0, a[2], qm)) / (2*h);
+				if(!(std::fabs(fd - G(i,tt)) <= 2e-5*(scale + std::fabs(G(i,tt))))){
+					std::ostringstream os; os << " !oracle input-derivative (" << i << "," << tt << ") analytic=" << G(i,tt) << " finite-diff=" << fd; out += os.str(); break;
+				}
+			}
+		}
+		return out;
+	}
 	// generic op dispatch; returns false if the op is not a session op
 	bool dispatch(std::vector<std::string> const& t, std::string& out) const{
 		std::string const& op = t[0];
@@ -338,6 +442,7 @@ struct Session{
 			if(t.size() < 3 || !parseVal(t[1], reg) || !vh::allNat(t, 2, a)){ out = "bad-op"; return true; }
 			out = gram(reg, a); return true;
 		}
+		if(op == "pderiv" || op == "ideriv" || op == "dcheck"){ out = deriv(t); return true; }
 		if(op == "mixed"){
 			if(!vh::allNat(t, 1, a) || a.size() < 3){ out = "bad-op"; return true; }
 			std::size_t nb1 = a[0]; a.erase(a.begin());
